@@ -60,7 +60,25 @@ def run_spec(ctx, progs, tag='spec'):
 def run_impl(ctx, jobs, tag='impl', timeout=600):
     """jobs: list of (prog, variant, par, budget) -> parsed results, case lines"""
     lines = [p.go_case(v, par, b) for (p, v, par, b) in jobs]
-    out = C.run_lines(os.environ.get('VERIF_HARNESS', C.BUILD + '/harness'), 'run', lines, ctx.work, tag, timeout=timeout)
+    exe = os.environ.get('VERIF_HARNESS', C.BUILD + '/harness')
+    out = C.run_lines(exe, 'run', lines, ctx.work, tag, timeout=timeout)
+    # 'hang' (the harness's wall-clock watchdog) and a dead process depend on machine load, not
+    # only on the code: such cases are run again, few at a time, with a generous wall-clock
+    # limit, and the second answer stands (a real hang or crash repeats)
+    again = [i for i, o in enumerate(out) if o is None or o.startswith('hang') or o.startswith('CRASH')]
+    if again and len(again) <= 200:
+        old_env = os.environ.get('VERIF_CASE_TIMEOUT')
+        os.environ['VERIF_CASE_TIMEOUT'] = '120'
+        try:
+            out2 = C.run_lines(exe, 'run', [lines[i] for i in again], ctx.work, tag + '-again', timeout=max(timeout, 900), shards=4)
+        finally:
+            if old_env is None:
+                os.environ.pop('VERIF_CASE_TIMEOUT', None)
+            else:
+                os.environ['VERIF_CASE_TIMEOUT'] = old_env
+        for i, o in zip(again, out2):
+            out[i] = o
+        ctx.rerun_wallclock = getattr(ctx, 'rerun_wallclock', 0) + len(again)
     return [parse_impl(o) for o in out], lines, out
 
 
